@@ -1,6 +1,6 @@
 """Shared pipeline of the watch-stream checks (C02, C12, C14 watch part)."""
 import json, os, re, copy
-import vlib
+import vlib, inmemlib
 
 RING_CONFIGS = [(1, 1, 0), (2, 2, 0), (2, 4, 1), (3, 5, 1), (4, 8, 2), (4, 4, 3)]
 
@@ -15,16 +15,20 @@ def gen_groups(ctx, configs, num, depth):
     return groups
 
 
-def drive(ctx, groups, extras=True, name="watch"):
+def drive(ctx, groups, extras=True, name="watch", hook_prop=None):
+    """hook_prop: also judge the linearization-point traces of the collections the driver used (TraceInmem) for that property."""
     binary = vlib.go_build_test(ctx, "c02")
     inp = os.path.join(ctx.scratch, name + "-in.json")
     json.dump(groups, open(inp, "w"))
     out = os.path.join(ctx.scratch, name + "-out")
     _, mint = vlib.go_run(ctx, binary, "TestMint", {})
     m = re.search(r"MINT ([0-9a-f]{32})", mint)
-    vlib.go_run(ctx, binary, "TestWatch", {"VERIF_IN": inp, "VERIF_OUT": out, "VERIF_EXTRAS": "1" if extras else "0",
-                                            "VERIF_FOREIGN_BM": m.group(1) if m else ""},
+    henv, hdir = inmemlib.traced(ctx, name) if hook_prop else ({}, None)
+    vlib.go_run(ctx, binary, "TestWatch", dict({"VERIF_IN": inp, "VERIF_OUT": out, "VERIF_EXTRAS": "1" if extras else "0",
+                                                 "VERIF_FOREIGN_BM": m.group(1) if m else ""}, **henv),
                 timeout=2400)
+    if hook_prop:
+        inmemlib.judge_driver(ctx, hook_prop, hdir, "TestWatch(%s)" % name, max_collections=600 if ctx.tier == "quick" else 6000)
     if ctx.tier == "thorough" and name == "watch":
         vlib.race_stage(ctx, "c02", "TestWatch", {"VERIF_IN": inp, "VERIF_OUT": out, "VERIF_EXTRAS": "1" if extras else "0",
                                                   "VERIF_FOREIGN_BM": m.group(1) if m else ""})
